@@ -2,9 +2,11 @@ package wire
 
 // The victim: a REAL lemochain-core node (store, chain.BlockChain with the DPoVP engine, txpool,
 // network.ProtocolManager, p2p.DiscoverManager) assembled exactly like main/node.New, plus the
-// server-side handling of one inbound connection exactly like p2p.Server.listenLoop/HandleConn/run
-// (which cannot be used directly: Server needs a listening TCP port).  The attacker talks to it
-// over net.Pipe.  Everything here runs inside the `vh drive wire-run` SUB-PROCESS, because a panic
+// handling of one connection exactly like p2p.Server does it (Server itself cannot be used: it needs
+// a listening TCP port): INBOUND like Server.listenLoop -> HandleConn(fd, nil) -> run, OUTBOUND like
+// DialManager.runDialTask(node string) -> Server.HandleConn(fd, nodeID) -> run, where the dialed
+// address is one the node learnt through DiscoverManager.AddNewList (what a DiscoverResMsg or the
+// connect API feed).  The attacker - a client resp. an evil listener - is the other end of a net.Pipe.  Everything here runs inside the `vh drive wire-run` SUB-PROCESS, because a panic
 // of the code under test kills the process.
 
 import (
@@ -129,8 +131,11 @@ func (c *recConn) isClosed() bool { return atomic.LoadInt32(&c.closed) == 1 }
 
 // conn is one connection: the node's side is driven by the real code, the attacker's side by the class builders.
 type conn struct {
+	dir    string // "in": the node accepted, "out": the node dialed
 	cli    net.Conn
 	srv    *recConn
+	req    *authReq // out: the node's handshake request as decrypted by the evil listener
+	reqRaw []byte   // out: its ECIES bytes
 	hsDone chan string // result of the node's DoHandshake ("" = ok)
 	hs     string      // "pending" | "ok" | error text
 	aes    []byte      // session key once the attacker completed a genuine handshake
@@ -145,30 +150,65 @@ type conn struct {
 // accept mirrors p2p.Server.listenLoop -> HandleConn(fd, nil) -> run(addPeerCh) for one inbound connection.
 func (n *node) accept() *conn {
 	cli, srv := net.Pipe()
-	c := &conn{cli: cli, srv: &recConn{Conn: srv, closedCh: make(chan struct{})}, hsDone: make(chan string, 1), hs: "pending"}
+	c := &conn{dir: "in", cli: cli, srv: &recConn{Conn: srv, closedCh: make(chan struct{})}, hsDone: make(chan string, 1), hs: "pending"}
+	c.startReader()
+	go n.handleConn(c, nil)
+	return c
+}
+
+// evilNode is the address under which the remote party listens: its own node id (it owns the key) and an endpoint.
+func evilNode() string {
+	return fmt.Sprintf("%x@127.0.0.1:7100", crypto.PrivateKeyToNodeID(mustKey(anonKeyHex)))
+}
+
+// dial mirrors DialManager.loop/runDialTask -> Server.HandleConn(fd, nodeID) -> run(addPeerCh) for one outbound
+// connection to a node string the node learnt the way it learns all of them (DiscoverManager.AddNewList).
+func (n *node) dial() *conn {
+	node := evilNode()
+	n.disc.AddNewList([]string{node})
+	cli, srv := net.Pipe()
+	c := &conn{dir: "out", cli: cli, srv: &recConn{Conn: srv, closedCh: make(chan struct{})}, hsDone: make(chan string, 1), hs: "pending"}
 	c.startReader()
 	go func() {
-		peer := p2p.NewPeer(c.srv)
-		if err := peer.DoHandshake(n.key, nil); err != nil {
+		// DialManager.runDialTask
+		nodeID, _ := p2p.ParseNodeString(node)
+		if nodeID == nil {
 			c.srv.Close()
-			n.disc.SetConnectResult(peer.RNodeID(), false)
-			c.hsDone <- "err: " + err.Error()
+			c.hsDone <- "err: invalid node"
 			return
 		}
-		if n.disc.IsBlackNode(peer.RNodeID()) || bytes.Equal(peer.RNodeID()[:], deputynode.GetSelfNodeID()) {
+		if n.disc.IsBlackNode(nodeID) {
 			c.srv.Close()
-			n.disc.SetConnectResult(peer.RNodeID(), false)
-			c.hsDone <- "err: rejected node id"
+			c.hsDone <- "err: black node"
 			return
 		}
-		go func() { // Server.runPeer
-			peer.Run()
-			peer.Close()
-		}()
-		subscribe.Send(subscribe.AddNewPeer, peer)
-		c.hsDone <- ""
+		// net.DialTimeout("tcp", endpoint) is the pipe
+		n.handleConn(c, nodeID)
 	}()
 	return c
+}
+
+// handleConn is p2p.Server.HandleConn(fd, nodeID) followed by what Server.run does with the new peer.
+func (n *node) handleConn(c *conn, nodeID *p2p.NodeID) {
+	peer := p2p.NewPeer(c.srv)
+	if err := peer.DoHandshake(n.key, nodeID); err != nil {
+		c.srv.Close()
+		n.disc.SetConnectResult(peer.RNodeID(), false)
+		c.hsDone <- "err: " + err.Error()
+		return
+	}
+	if n.disc.IsBlackNode(peer.RNodeID()) || bytes.Equal(peer.RNodeID()[:], deputynode.GetSelfNodeID()) {
+		c.srv.Close()
+		n.disc.SetConnectResult(peer.RNodeID(), false)
+		c.hsDone <- "err: rejected node id"
+		return
+	}
+	go func() { // Server.runPeer
+		peer.Run()
+		peer.Close()
+	}()
+	subscribe.Send(subscribe.AddNewPeer, peer)
+	c.hsDone <- ""
 }
 
 // startReader consumes whatever the node writes (net.Pipe writes block until read) and keeps the frames.
